@@ -63,7 +63,11 @@ def single_item_script(g):
             if r.random() < 0.08:
                 key = dict(key); key["zz"] = S("extra")     # not a key attribute: not part of an item the update creates
             ops.append(dict(op="update", key=key, expr=e, names=nm, values=vs, **base))
-        elif k < 0.7: ops.append(dict(op="delete", key=pick(), return_old=r.random() < 0.7, **base))
+        elif k < 0.7:
+            ops.append(dict(op="delete", key=pick(), return_old=r.random() < 0.7, **base))
+            if r.random() < 0.2:
+                # a ReturnValues that asks for nothing DeleteItem / PutItem can give: the write happens, nothing is returned
+                ops[-1].pop("return_old"); ops[-1]["rv"] = r.choice(["NONE", "ALL_NEW", "UPDATED_OLD", "UPDATED_NEW"])
         else: ops.append(dict(op="get", key=pick(exact=r.random() < 0.95), **base))
         if r.random() < 0.35:
             ops.append(dict(op="scan", **base))
@@ -564,7 +568,9 @@ def failing_script(g):
             e, vs = r.choice([("SET g = :s", {":s": S("z")}), ("SET g = :n", {":n": N("8")}), ("REMOVE g", {}), ("SET f = :s", {":s": S("q")}),
                               ("SET g = :s, f = :n", {":s": S("z"), ":n": N("2")}), ("SET f = :n", {":n": N("3")}), ("SET v = :s", {":s": S("w")})])
             q = r.random()
-            if q < 0.2: ops.append(dict(op="delete", key={"h": S(h)}, return_old=r.random() < 0.5, **base))
+            if q < 0.2:
+                ops.append(dict(op="delete", key={"h": S(h)}, return_old=r.random() < 0.5, **base))
+                if r.random() < 0.3: ops[-1].pop("return_old"); ops[-1]["rv"] = r.choice(["ALL_NEW", "UPDATED_OLD", "UPDATED_NEW", "NONE"])
             elif q < 0.3: ops.append(dict(op="batch_write", client="c", requests={"tbl": [dict(put={"h": S("n%d" % len(ops)), "g": S("q")}), dict(delete={"h": S(h)})]}))
             else: ops.append(dict(op="update", key={"h": S(h)}, expr=e, names={}, values=vs, **base))
             ops.append(dict(op="get", key={"h": S(h)}, **base))
@@ -696,7 +702,9 @@ def keys_script(g):
     schema = r.choice(gen.SCHEMAS + [dict(hash=("h", "B"), range=None), dict(hash=("h", "S"), range=("r", "B"))])
     op = dict(op="create_table", client="c", table="tbl", hash=dict(name=schema["hash"][0], type=schema["hash"][1]),
               billing="PAY_PER_REQUEST", throughput=True)
-    if schema["range"]: op["range"] = dict(name=schema["range"][0], type=schema["range"][1])
+    if schema["range"]:
+        op["range"] = dict(name=schema["range"][0], type=schema["range"][1])
+        if r.random() < 0.2: op["range_first"] = True      # the RANGE element listed first: the same schema
     if r.random() < 0.06:
         # a key attribute declared with a type that is no key type: the table is refused (and nothing below finds it)
         op[r.choice(["hash", "range"] if schema["range"] else ["hash"])]["type"] = r.choice(["BOOL", "SS", "NS", "BS", "L", "M", "NULL", "s", ""])
